@@ -72,19 +72,22 @@ class Ctx:
         self.interps[key] = it
         return it
 
-    def posts(self, key):
-        if key in self.posts_cache:
-            return self.posts_cache[key]
-        if key in self.posts_in_progress:
+    def posts(self, key, spec=()):
+        """per-variant success post-conditions; `spec` = ((param index, discriminant), ...) specialises the
+        analysis to call sites whose by-value enum arguments are of known variants (one level of context)"""
+        ck = (key, spec)
+        if ck in self.posts_cache:
+            return self.posts_cache[ck]
+        if ck in self.posts_in_progress or (spec and len(self.posts_in_progress) > 6):
             return {}
-        self.posts_in_progress.add(key)
+        self.posts_in_progress.add(ck)
         try:
             from . import summaries
-            p = summaries.compute_posts(self, key)
-            self.posts_cache[key] = p
+            p = summaries.compute_posts(self, key, spec)
+            self.posts_cache[ck] = p
             return p
         finally:
-            self.posts_in_progress.discard(key)
+            self.posts_in_progress.discard(ck)
 
     def top_interp(self, key):
         """analysis of a body under the top entry state (valid for every caller); None inside recursion"""
@@ -813,7 +816,13 @@ class Interp:
             shape = self.ctx.ret_shape(path)
             adt = dest.ty.get("adt") if dest.ty.get("k") == "adt" else None
             apply_shape(S, R, shape, self.ctx, adt)
-            posts = self.ctx.posts(path)
+            spec = []
+            for i, a in enumerate(args):
+                if isinstance(a, tuple) and a[0] == "agg" and isinstance(a[1], str) and a[2] is not None and a[1] in self.ctx.prog.adts \
+                        and self.ctx.prog.adts[a[1]]["kind"] == "enum" and t["args"][i].get("m") is not None or \
+                        (isinstance(a, tuple) and a[0] == "agg" and isinstance(a[1], str) and a[1] in self.ctx.prog.adts and self.ctx.prog.adts[a[1]]["kind"] == "enum" and a[2] is not None):
+                    spec.append((i + 1, self.ctx.variant_discr(a[1], a[2])))
+            posts = self.ctx.posts(path, tuple(spec))
             if posts:
                 from . import summaries
                 summaries.apply_posts(self, S_pre, S, t, args, R, posts, self.prog.bodies[path])
